@@ -249,7 +249,7 @@ Proof.
       simpl in Ha. destruct (IHn sub ltac:(lia) (S d) Ha) as (lg & o & H). rewrite H.
       destruct sub; eauto.
     + simpl in Hd. destruct (IHr ltac:(lia) d Hd) as (lg & o & H). rewrite H.
-      destruct (finish final K (S d) sub (spec_list final K (S d) sub)) as [lg1 [v|o1]]; simpl; eauto.
+      destruct (finish final K true (S d) sub (spec_list final K (S d) sub)) as [lg1 [v|o1]]; simpl; eauto.
 Qed.
 
 Theorem nesting_limit tokens :
